@@ -10,5 +10,6 @@ git -C "$WT" apply "$S/patch.diff" || { echo "PATCH DOES NOT APPLY"; git -C /rep
 "$(dirname "$0")/baseline.sh" "$WT" > "$WT.base.out" 2>&1; b=$?
 PYTHONPATH="$WT" /venv/bin/python "$S/demo.py" >"$WT.mut.out" 2>&1; m=$?
 git -C /repo worktree remove --force "$WT"
-tail -2 "$WT.mut.out"; rm -f "$WT".*.out.keep; echo "clean_demo_exit=$c baseline_exit=$b ($(head -1 "$WT.base.out")) mutant_demo_exit=$m"
+tail -2 "$WT.mut.out"; echo "clean_demo_exit=$c baseline_exit=$b ($(head -1 "$WT.base.out")) mutant_demo_exit=$m"
+rm -f "$WT".clean.out "$WT".base.out "$WT".mut.out
 [ $c -eq 0 ] && [ $b -eq 0 ] && [ $m -eq 1 ]
